@@ -140,6 +140,10 @@ func scriptCollectionValue(kind string) interface{} {
 	return []interface{}{scriptValue(kind), 1}
 }
 
+// scriptEscRID is a valid resource id whose JSON encoding needs escapes: quote
+// and backslash are legal in name tokens, the query part is free text.
+const scriptEscRID = `svc.m."q"\x.back\slash?path=C:\dir\"file"&nl=` + "a\nb\t<é>\x01\"},\"error\":{\"code\":\"x\"}"
+
 var errPlain = errors.New("plain failure")
 var errRes = &res.Error{Code: "custom.code", Message: "Custom \"message\"", Data: map[string]interface{}{"k": []int{1}}}
 
@@ -328,6 +332,8 @@ func scriptReply(r *res.Request, rq interface{}, rtype string, a act) {
 			rid = "svc..bad rid"
 		} else if a.V == "query" {
 			rid = "svc.m.created?foo=bar"
+		} else if a.V == "escapes" {
+			rid = scriptEscRID
 		}
 		r.Resource(rid)
 	case "new":
@@ -440,7 +446,7 @@ func replyAlphabet(rtype string, htype res.ResourceType) []act {
 		common()
 	case "call", "auth":
 		add("ok", "nil", "map", "stresc", "chan", "invalidmarshaler", "nestedchan", "datavalue", "marshaler-reserr", "marshaler-wrapped-reserr", "marshaler-nil-reserr")
-		add("resource", "valid", "invalid", "query")
+		add("resource", "valid", "invalid", "query", "escapes")
 		add("methodnotfound")
 		add("invalidparams", "", "bad params")
 		common()
